@@ -101,9 +101,12 @@ def groups_axis(array, axis):
 
 
 # ---- wrapping for the two backends ---------------------------------------------------------------------------------
-def wrap(kind, a):
+def wrap(kind, a, labelled=False):
     if kind == "numpy":
         return a
+    if labelled:
+        # integer coordinate labels that are a permutation of the positions: indices stay positional, as in numpy.take
+        return xr.DataArray(a, dims=DIMS[: a.ndim], coords={DIMS[i]: list(range(a.shape[i]))[::-1] for i in range(a.ndim)})
     return xr.DataArray(a, dims=DIMS[: a.ndim])
 
 
@@ -168,6 +171,8 @@ def case_list(tier):
             for axis in range(len(shape)):
                 for ind in (0, shape[axis] - 1, [0], [shape[axis] - 1, 0]):
                     cases.append((kind, "take", "take", 1, shape, axis, ind))
+                    if kind == "xarray" and shape[axis] > 1:
+                        cases.append((kind, "take", "take", 1, shape, axis, ind, "labelled"))
     # batchability: discovered from the code, not from a list
     marked = sorted(n for n in dir(backends.Backend) if getattr(getattr(backends.Backend, n), "batchable", False))
     bk = 4 if tier == "quick" else 5
@@ -221,7 +226,7 @@ def apply_case(case, inputs):
     """Run the real backend for `case` on `inputs` (object arrays of Q or Fraction). Returns (got, want) as
     (shape, flat list) pairs of python values (Q / Fraction)."""
     kind, fam, op = case[0], case[1], case[2]
-    W = [wrap(kind, a) for a in inputs]
+    W = [wrap(kind, a, labelled=(fam == "take" and len(case) > 7 and case[7] == "labelled")) for a in inputs]
     f = getattr(backends, op)
     if fam == "multi":
         got = f(*W, **red_kwargs(kind, op))
